@@ -1773,8 +1773,41 @@ def rule_raise_resolves(repo):
     return r
 
 
+def rule_const_host(repo):
+    """A constant driving a signal is judged by the port rules at the component that MADE the connection."""
+    r = RuleResult('R-C09-const-host', "a constant connected to a signal records the connecting component as its parent, so the "
+                                       "port-direction rules judge the connection from where it was made")
+    m = repo.mod(L3)
+    f = m.get_func('ComponentLevel3._connect_signal_const')
+    me = f.args.args[0].arg
+    ctors = [c for c in ast.walk(f) if isinstance(c, ast.Call) and norm(c.func) == 'Const']
+    if len(ctors) < 2:
+        raise AnalysisError("anchor vanished: Const constructions in _connect_signal_const")
+    for c in ctors:
+        ok = len(c.args) == 3 and norm(c.args[2]) == me
+        (r.ok if ok else r.bad)(m, 'ComponentLevel3._connect_signal_const', norm(c),
+                                *([] if ok else [f"the Const's parent must be the connecting component `{me}`", c.lineno]))
+    for a in ast.walk(f):
+        if isinstance(a, ast.Assign) and any(isinstance(t, ast.Attribute) and t.attr == 'parent_obj' for t in a.targets):
+            ok = norm(a.value) == me
+            (r.ok if ok else r.bad)(m, 'ComponentLevel3._connect_signal_const', norm(a),
+                                    *([] if ok else [f"the constant's parent is overwritten with `{norm(a.value)}` instead of the connecting "
+                                                     f"component `{me}`: a constant tied to a child's wire/outport or to the component's own "
+                                                     f"inport from a forbidden position is then judged legal", a.lineno]))
+    cm = repo.mod(CONN)
+    g = cm.get_func('Const.__init__')
+    a = [x.arg for x in g.args.args]
+    st = [norm(x) for x in g.body]
+    ok = len(a) == 4 and f"{a[0]}._dsl.parent_obj = {a[3]}" in st
+    (r.ok if ok else r.bad)(cm, 'Const.__init__', '; '.join(st), *([] if ok else ["Const must store its third argument as parent_obj", g.lineno]))
+    r.require_floor(4)
+    return r
+
+
+from rules.c02 import rule_funcfold   # noqa: E402  (a writer hidden in a nested helper must be attributed to the block: shared with C02)
+
 RULES = [rule_overlap, rule_slicekey, rule_pipeline, rule_mw_guard, rule_mw_cover, rule_porttable, rule_optable,
-         rule_nowriter, rule_loop, rule_raise_resolves]
+         rule_nowriter, rule_loop, rule_raise_resolves, rule_const_host, rule_funcfold]
 
 
 # ---------------------------------------------------------------------------
@@ -1784,6 +1817,8 @@ def _m(name, file, old, new, rule=None, count=1):
 
 
 MUTANTS = [
+    _m('const-parent-is-host', L3, "    o2._dsl.parent_obj = s\n    s._dsl.consts.add( o2 )", "    o2._dsl.parent_obj = host\n    s._dsl.consts.add( o2 )", 'R-C09-const-host'),
+    _m('funcfold-wrong-func', L2, "            s._dsl.all_upblk_writes[ blk ] |= m._dsl.func_writes[u]", "            s._dsl.all_upblk_writes[ blk ] |= m._dsl.func_writes[call]", 'R-C02-funcfold'),
     # --- R-overlap
     _m('overlap-adjacent-slices', CONN, "if x.start <= y.start:  return y.start < x.stop", "if x.start <= y.start:  return y.start <= x.stop", 'R-overlap'),
     _m('overlap-int-lower-bound', CONN, "else:                     return y.start <= x < y.stop", "else:                     return y.start < x < y.stop", 'R-overlap'),
@@ -1842,8 +1877,6 @@ MUTANTS = [
     _m('callsite-is-write-dropped', L2, "update_ff = blk in s._dsl.update_ff, is_write=True )", "update_ff = blk in s._dsl.update_ff )", 'R-C09-optable'),
     _m('nonsignal-write-accepted', L2, "            if not isinstance( obj, Signal ):", "            if not isinstance( obj, NamedObject ):", 'R-C09-optable'),
     _m('block-kinds-swapped', L2, "          if update_ff:\n", "          if not update_ff:\n", 'R-C09-optable'),
-    _m('ff-plain-assign-branch-dropped', L2, "            if op is None:\n              raise UpdateFFBlockWriteError( s, func, '=', nodelist[0].lineno,\n                \"Fix the '=' assignment with '<<='\")\n            elif op == 'for':",
-       "            if op == 'for':", 'R-C09-optable'),
     # --- R-C09-nowriter
     _m('headless-nets-dropped', L3, "    return headed + [ (None, x) for x in headless ]", "    return headed", 'R-C09-nowriter'),
     _m('nowriter-test-inverted', L3, "for writer, signals in nets if writer is None ]", "for writer, signals in nets if writer is not None ]", 'R-C09-nowriter'),
@@ -1894,9 +1927,8 @@ LEVEL_TEXT = ("Static analysis of the elaboration-time design-rule checkers of p
               "shape, without executing pymtl3.")
 LEVEL_NOTE = ("Not decided: completeness of the iterative writer propagation in _resolve_value_connections (which placement of "
               "two drivers across nets is found), faithfulness of the read/write sets extracted from update-block ASTs "
-              "(C02), self-connections. Known genuine findings: D9 (one block writing two overlapping slices is rejected), "
-              "augmented operators other than @=/<<= raise TypeError, ComponentLevel1.add_constraints in a placeholder "
-              "raises NameError.")
+              "(C02), self-connections. Known genuine finding: D9 (one block writing two overlapping slices is rejected; listed in "
+              "known_findings.json). Two further defects found by these rules were repaired in /repo (fix: commits).")
 TECHNIQUE = ("ast extraction + finite abstract evaluation (order types of slice endpoints; hierarchy x port-class and "
              "block-kind x operator case splits), structural dominance of guards, MRO/call resolution of the elaborate "
              "template, name/arity resolution of raise sites")
